@@ -9,6 +9,7 @@
 // Output: one JSON line per configuration.
 #include <cstdlib>
 #include <fstream>
+#include <limits>
 #include <set>
 #include <sstream>
 
@@ -138,7 +139,8 @@ static void run(const Spec & sp, uint64_t seed, long n_iid, int n_grid, bool hos
         double ts = ekin(pp[0]) + (sp.mode == 10 ? 0.0 : ekin(pp[1]));
         if (ts < tsum_min) tsum_min = ts;
         if (ts > tsum_max) tsum_max = ts;
-        if (!(ts >= sp.e1 - 1e-9 && ts <= sp.e2 + 1e-9)) rec(budget, lab + "|window", fmt("lepton energy sum %.9f MeV outside the window [%.9g,%.9g]", ts, sp.e1, sp.e2));
+        bool in_lo = std::isnan(sp.e1) || ts >= sp.e1 - 1e-9, in_hi = std::isnan(sp.e2) || ts <= sp.e2 + 1e-9;
+        if (!(in_lo && in_hi)) rec(budget, lab + "|window", fmt("lepton energy sum %.9f MeV outside the window [%.9g,%.9g]", ts, sp.e1, sp.e2));
       }
     }
     if (st.sample.empty() && st.events > 2) st.sample = "{\"tape\":" + tape.prefix_json(std::min<size_t>(d, 10)) + ",\"draws\":" + std::to_string(d) + ",\"event\":" + event_json(ev) + "}";
@@ -252,6 +254,8 @@ int main(int argc, char ** argv)
     } else {
       int w = 0, ch = 0;
       ls >> sp.level >> sp.mode >> sp.e1 >> sp.e2 >> w >> sp.Q >> sp.budget_eq >> ch >> sp.tol;
+      if (sp.e1 == -999.0) sp.e1 = std::numeric_limits<double>::quiet_NaN(); // one-sided windows: the other limit left undefined
+      if (sp.e2 == -999.0) sp.e2 = std::numeric_limits<double>::quiet_NaN();
       double wb = 0;
       if (ls >> wb) sp.work_bound = (size_t)wb;
       std::string tk;
